@@ -335,12 +335,28 @@ func encoderWrites(fn *ssa.Function) []byteWrite {
 			if !ok || widthLanes(x.Val.Type()) != 1 {
 				continue
 			}
+			if a, isA := ia.X.(*ssa.Alloc); isA && a.Comment == "varargs" {
+				continue // the temporary holding the arguments of a variadic call, not a buffer
+			}
 			ls := lanesOf(x.Val, 0)
 			if len(ls) != 1 {
 				continue
 			}
 			out = append(out, byteWrite{Buf: bufferRoot(ia.X), Pos: posOf(ia.Index), Lane: ls[0], At: x.Pos()})
 		case *ssa.Call:
+			// header = append(header, b0, b1, …): bytes written at the buffer's current length
+			if bi, ok := x.Call.Value.(*ssa.Builtin); ok && bi.Name() == "append" && len(x.Call.Args) == 2 && isByteSlice(x.Type()) {
+				if base := appendOffset(x.Call.Args[0]); base >= 0 {
+					for i, e := range variadicElems(x.Call.Args[1]) {
+						ls := lanesOf(e, 0)
+						if len(ls) != 1 {
+							continue
+						}
+						out = append(out, byteWrite{Buf: bufferRoot(x), Pos: posExpr{Off: base + int64(i), OK: true}, Lane: ls[0], At: x.Pos()})
+					}
+				}
+				continue
+			}
 			o := calleeObj(&x.Call)
 			if o == nil || o.Pkg() == nil || o.Pkg().Path() != "encoding/binary" || len(x.Call.Args) < 2 {
 				continue
@@ -384,12 +400,59 @@ func encoderWrites(fn *ssa.Function) []byteWrite {
 // bufferRoot normalises the buffer operand (array alloc behind a slice, etc.).
 func bufferRoot(v ssa.Value) ssa.Value {
 	v = strip(v)
-	for i := 0; i < 4; i++ {
+	for i := 0; i < 12; i++ {
 		if s, ok := v.(*ssa.Slice); ok && s.Low == nil {
 			v = strip(s.X)
 			continue
 		}
+		// a buffer grown by append: the buffer it started from
+		if c, ok := v.(*ssa.Call); ok {
+			if b, ok := c.Call.Value.(*ssa.Builtin); ok && b.Name() == "append" && len(c.Call.Args) == 2 {
+				v = strip(c.Call.Args[0])
+				continue
+			}
+		}
 		break
 	}
 	return v
+}
+
+// appendOffset: the constant length of a buffer built by appends from an empty make (where the next
+// append writes), or -1.
+func appendOffset(v ssa.Value) int64 {
+	v = strip(v)
+	if ms, ok := v.(*ssa.MakeSlice); ok {
+		if k, ok := constInt(ms.Len); ok {
+			return k
+		}
+		return -1
+	}
+	if s, ok := v.(*ssa.Slice); ok && s.Low == nil {
+		if h, ok := constInt(s.High); ok && s.High != nil {
+			return h
+		}
+		if a, ok := s.X.(*ssa.Alloc); ok && s.High == nil {
+			if arr, ok := a.Type().(*types.Pointer).Elem().Underlying().(*types.Array); ok {
+				return arr.Len()
+			}
+		}
+		return -1
+	}
+	if k, ok := v.(*ssa.Const); ok && k.Value == nil {
+		return 0 // nil slice
+	}
+	if c, ok := v.(*ssa.Call); ok {
+		if b, ok := c.Call.Value.(*ssa.Builtin); ok && b.Name() == "append" && len(c.Call.Args) == 2 {
+			base := appendOffset(c.Call.Args[0])
+			if base < 0 {
+				return -1
+			}
+			els := variadicElems(c.Call.Args[1])
+			if len(els) == 0 {
+				return -1 // a spread of unknown length
+			}
+			return base + int64(len(els))
+		}
+	}
+	return -1
 }
